@@ -187,6 +187,7 @@ type World struct {
 	NPanics     int
 
 	Probes [NProbes]int64
+	DoublePuts int // an object was Put into a pool that already held it
 	OpCount [32]int64
 	Sites  [MaxSites]SiteStat
 	nsites int
@@ -955,4 +956,11 @@ func PoolGC() bool {
 		return false
 	}
 	return ChooseBiased(DGC, w.Cfg.PoolGCPm) == 1
+}
+
+//go:norace
+func NoteDoublePut() {
+	if w := W; w != nil {
+		w.DoublePuts++
+	}
 }
